@@ -7,7 +7,7 @@
    Closed under the global context. *)
 From Coq Require Import Qround Sorted Lqa.
 From MM Require Import Base.Num Model.Ticks Proofs.Ticks Proofs.TicksLinear Check.C17 Proofs.CheckBase
-  Proofs.CheckC17Base Proofs.CheckC17Lin Proofs.CheckC17Log Proofs.CheckC17Win.
+  Proofs.CheckC17Base Proofs.CheckC17Parse Proofs.CheckC17Lin Proofs.CheckC17Log Proofs.CheckC17Win.
 Local Open Scope Z_scope.
 
 (* a Log scale as NewLog returns it *)
@@ -70,9 +70,9 @@ Lemma check_ok_sound_full :
      exists cs rest, parse_C17 line = Some cs /\
        line = (17 :: (match cs with CFind _ => 0 | CLin _ => 1 | CLog _ => 2 end) :: rest)%Z /\
        match cs with
-       | CFind c => p_flcase rest = Some (c, [])
-       | CLin c => p_sccase rest = Some (c, [])
-       | CLog c => p_sccase rest = Some (c, []) /\ log_pre (sc_base c) (sc_mn c) (sc_mx c) = true
+       | CFind c => p_flcase rest = Some (c, []) /\ flcase_layout c rest
+       | CLin c => p_sccase rest = Some (c, []) /\ sccase_layout c rest
+       | CLog c => p_sccase rest = Some (c, []) /\ sccase_layout c rest /\ log_pre (sc_base c) (sc_mn c) (sc_mx c) = true
        end /\
        case_ok cd cs) /\
   (forall (cd : Z) (cs : c17case), case_ok cd cs <->
@@ -94,11 +94,31 @@ Lemma check_ok_sound_full :
     match find_level o cnt (fc_guess c) with
     | FL_ok l => fc_ok c = 1 /\ fc_lev c = l | FL_fail => fc_ok c = 0 /\ fc_lev c = 0 | FL_fuel => False end)%Z) /\
   (forall (tol : Q -> Q) (exp : list Q) (obs : list xreal), obs_close tol exp obs <->
-   (Forall2 (fun e o => exists q, o = XFin q /\ (Qabs (q - e) <= tol e)%Q) exp obs)%Z).
+   (Forall2 (fun e o => exists q, o = XFin q /\ (Qabs (q - e) <= tol e)%Q) exp obs)%Z) /\
+  (forall (c : flcase) (rest : list Z), flcase_layout c rest <->
+   (rest = [o_max (fc_o c); o_minlevel (fc_o c); o_maxlevel (fc_o c); fc_guess c; fc_wlo c; Z.of_nat (length (fc_vs c))]
+    ++ fc_vs c ++ [fc_left c; fc_right c; fc_ok c; fc_lev c])%Z) /\
+  (forall (c : sccase) (rest : list Z), sccase_layout c rest <->
+   (let ob := sc_ob c in
+    exists bmn bmx major minor levws bnmin bnmax bm0 bm1 bnmin2 bnmax2 major3,
+    rest = [sc_base c; bmn; bmx; o_max (sc_o c); o_minlevel (sc_o c); o_maxlevel (sc_o c); so_st ob]
+    ++ (Z.of_nat (length major) :: major) ++ (Z.of_nat (length minor) :: minor)
+    ++ (Z.of_nat (length (so_levels ob)) :: concat levws)
+    ++ [o_max (so_no ob); o_minlevel (so_no ob); o_maxlevel (so_no ob); so_nst ob; bnmin; bnmax; bm0; bm1; so_nst2 ob; bnmin2; bnmax2; so_st3 ob]
+    ++ (Z.of_nat (length major3) :: major3) /\
+    decode_bits bmn = XFin (sc_mn c) /\ decode_bits bmx = XFin (sc_mx c) /\
+    so_major ob = map decode_bits major /\ so_minor ob = map decode_bits minor /\
+    Forall2 lev_layout (so_levels ob) levws /\
+    so_nmin ob = decode_bits bnmin /\ so_nmax ob = decode_bits bnmax /\ so_map0 ob = decode_bits bm0 /\ so_map1 ob = decode_bits bm1 /\
+    so_nmin2 ob = decode_bits bnmin2 /\ so_nmax2 ob = decode_bits bnmax2 /\ so_major3 ob = map decode_bits major3)%Z) /\
+  (forall (lv : levobs) (w : list Z), lev_layout lv w <->
+   (exists bs, w = lv_level lv :: lv_count lv :: lv_st lv :: Z.of_nat (length bs) :: bs /\ lv_ticks lv = map decode_bits bs)%Z).
 Proof.
   split; [|repeat match goal with |- _ /\ _ => split end; intros; reflexivity].
   intros line cd tag pos diag H Hc. destruct (check_ok_sound line cd tag pos diag H Hc) as (cs & Hp & Hk).
-  destruct (parse_C17_shape line cs Hp) as (rest & Hl & Hs). exists cs, rest. auto.
+  destruct (parse_C17_shape line cs Hp) as (rest & Hl & Hs). exists cs, rest. split; [exact Hp|]. split; [exact Hl|]. split; [|exact Hk].
+  destruct cs as [c|c|c]; [split; [exact Hs | now apply p_flcase_layout] | split; [exact Hs | now apply p_sccase_layout] |].
+  destruct Hs as [Hs1 Hs2]. split; [exact Hs1|]. split; [now apply p_sccase_layout | exact Hs2].
 Qed.
 
 (* the case predicates of the two scale kinds and the predicates they are made of, unfolded *)
